@@ -5,6 +5,7 @@ import ast
 from ..index import unparse, iter_own_nodes, AnalysisError
 from ..cfg import calls_in_node
 from ..framework import stores_to_name, assigned_values
+from .. import exprs as X
 from . import common
 
 EXPLANATION = (
@@ -77,18 +78,25 @@ def rule_reserve_and_codec(chk):
     cfg = ctx.cfg(ct)
     tparam = "task_id"
 
+    idnames = {tparam}
+
     def from_param(e):
         """the expression is the task id as given, or its decoded form"""
-        if isinstance(e, ast.Name) and e.id == tparam:
+        if isinstance(e, ast.Name) and e.id in idnames:
             return True
-        return isinstance(e, ast.Call) and isinstance(e.func, ast.Attribute) and e.func.attr == "decode" and isinstance(e.func.value, ast.Name) and e.func.value.id == tparam
-    idnames = {tparam}
-    for n_ in iter_own_nodes(ct.node):
-        if isinstance(n_, ast.Assign) and len(n_.targets) == 1 and isinstance(n_.targets[0], ast.Name):
-            nm = n_.targets[0].id
-            vals_ = [v for v in assigned_values(ct, nm)]
-            if vals_ and all(v is not None and from_param(v) for v in vals_):
-                idnames.add(nm)
+        return isinstance(e, ast.Call) and isinstance(e.func, ast.Attribute) and e.func.attr == "decode" and isinstance(e.func.value, ast.Name) and e.func.value.id in idnames
+    grew = True
+    while grew:
+        grew = False
+        for n_ in iter_own_nodes(ct.node):
+            if isinstance(n_, ast.Assign) and len(n_.targets) == 1 and isinstance(n_.targets[0], ast.Name) and n_.targets[0].id not in idnames:
+                nm = n_.targets[0].id
+                vals_ = [v for v in assigned_values(ct, nm)]
+                if vals_ and all(v is not None and (from_param(v) or (isinstance(v, ast.Call) and isinstance(v.func, ast.Attribute) and v.func.attr == "decode"
+                                                                     and isinstance(v.func.value, ast.Name) and v.func.value.id == nm)) for v in vals_) \
+                        and any(from_param(v) for v in vals_):
+                    idnames.add(nm)
+                    grew = True
     splits = [(n, c) for n in cfg.live for c, m in calls_in_node(n) if isinstance(c.func, ast.Attribute) and c.func.attr in ("split", "rsplit", "partition", "rpartition")
               and isinstance(c.func.value, ast.Name) and c.func.value.id in idnames]
     chk.need(splits, "continue_task no longer splits the task id")
@@ -99,11 +107,11 @@ def rule_reserve_and_codec(chk):
             problems.append("continue_task splits on %r, serialize_task_id joins with %r" % (lit, sep))
     # bytes are decoded first
     decs = [n for n in cfg.live for c, m in calls_in_node(n) if isinstance(c.func, ast.Attribute) and c.func.attr == "decode" and isinstance(c.func.value, ast.Name)
-            and c.func.value.id == tparam and isinstance(n.ast, ast.Assign) and isinstance(n.ast.targets[0], ast.Name) and n.ast.targets[0].id in idnames]
+            and c.func.value.id in idnames and isinstance(n.ast, ast.Assign) and isinstance(n.ast.targets[0], ast.Name) and n.ast.targets[0].id in idnames]
     okdec = False
     for d in decs:
         for t, lab in cfg.guards_of(d):
-            if t.kind == "test" and "isinstance(%s, bytes)" % tparam in unparse(t.exprs[0]) and lab == "true":
+            if t.kind == "test" and any("isinstance(%s, bytes)" % nm_ in unparse(t.exprs[0]) for nm_ in idnames) and lab == "true":
                 # every path from the bytes arm to the split passes the decode
                 okdec = cfg.must_pass([s for s, l in t.succ if l == "true"], [n for n, c in splits], [d])[0]
         dc = [c for c, m in calls_in_node(d) if isinstance(c.func, ast.Attribute) and c.func.attr == "decode"][0]
@@ -268,6 +276,11 @@ def rule_once(chk):
                     continue
                 why = ("single use is enforced by testing the flag `%s` and setting it in a separate statement with no lock held: two threads can both pass the test "
                        "(check-then-set), so f runs twice" % flag)
+    if not ok and why.startswith("no guard dominates"):
+        opaque = [unparse(X.strip_not(t.exprs[0], lab)[0])[:40] for n, c in fcalls for t, lab in cfg.guards_of(n)
+                  if t.kind == "test" and isinstance(X.strip_not(t.exprs[0], lab)[0], ast.Call)]
+        if opaque:
+            raise AnalysisError("preserve_context: the single-use guard `%s` is a call the analyser does not model (not a direct non-blocking Lock.acquire)" % opaque[0])
     chk.req(ok, "C06.once", "preserve_context:single-use-is-atomic", where, good=why, fail=why, sites=len(cfg.live))
     # the serialized id is consumed only by the one accepted call: a rejected call must not continue the task
     ct_ = ctx.func("_action", "Action.continue_task")
